@@ -101,6 +101,39 @@ type rbatch struct {
 	finished []atomic.Bool
 	errChan  chan error
 	got      []string
+	t0       time.Time    // just before Query
+	lastOK   atomic.Int64 // UnixNano of the last response a handler accepted as final
+	pt       time.Duration
+}
+
+// gapObs: time between the last successful response (or submission) and now,
+// and the ProgressTimeout, in µs.
+func (b *rbatch) gapObs() string {
+	from := b.t0
+	if l := b.lastOK.Load(); l > from.UnixNano() {
+		from = time.Unix(0, l)
+	}
+	return fmt.Sprintf("gap=%d pt=%d", time.Since(from).Microseconds(), b.pt.Microseconds())
+}
+
+// slowRanking is the stock ranking whose first Reward keeps the dispatcher
+// busy until `until`: the dispatcher is then still handling a successful
+// result when the batch's idle window, counted from submission, expires.
+type slowRanking struct {
+	query.PeerRanking
+	until atomic.Int64
+	once  sync.Once
+}
+
+func (r *slowRanking) Reward(p string) {
+	r.once.Do(func() {
+		if u := r.until.Load(); u > 0 {
+			if d := time.Until(time.Unix(0, u)); d > 0 {
+				time.Sleep(d)
+			}
+		}
+	})
+	r.PeerRanking.Reward(p)
 }
 
 type realRun struct {
@@ -122,6 +155,7 @@ func mkBatch(n int) (*rbatch, []*query.Request) {
 				switch resp {
 				case wire.Message(respFinal):
 					b.finished[k].Store(true)
+					b.lastOK.Store(time.Now().UnixNano())
 					return query.Progress{Finished: true, Progressed: true}
 				case wire.Message(respProgress):
 					return query.Progress{Progressed: true}
@@ -160,10 +194,11 @@ func realCase(rng *rand.Rand) *realRun {
 	stopAll := make(chan struct{})
 	defer close(stopAll)
 	peerCh := make(chan query.Peer)
+	ranking := &slowRanking{PeerRanking: query.NewPeerRanking()}
 	wm := query.NewWorkManager(&query.Config{
 		ConnectedPeers: func() (<-chan query.Peer, func(), error) { return peerCh, func() {}, nil },
 		NewWorker:      query.NewWorker,
-		Ranking:        query.NewPeerRanking(),
+		Ranking:        ranking,
 	})
 	wm.Start()
 	W := 1 + rng.Intn(3)
@@ -189,6 +224,7 @@ func realCase(rng *rand.Rand) *realRun {
 	submit := func(n int, opts ...query.QueryOption) *rbatch {
 		b, reqs := mkBatch(n)
 		done := make(chan struct{})
+		b.t0 = time.Now()
 		go func() { b.errChan = wm.Query(reqs, opts...); close(done) }()
 		select {
 		case <-done:
@@ -197,7 +233,7 @@ func realCase(rng *rand.Rand) *realRun {
 			return nil
 		}
 	}
-	kind := []string{"idle", "idle", "hard", "hard", "cancel", "disc", "failonly", "reconnect", "reconnect"}[rng.Intn(9)]
+	kind := []string{"idle", "idle", "hard", "hard", "cancel", "disc", "failonly", "reconnect", "reconnect", "prograce", "prograce"}[rng.Intn(11)]
 	n1 := W + 1 + rng.Intn(W+2)
 	if rng.Intn(5) == 0 {
 		n1 = 1 + rng.Intn(W)
@@ -205,9 +241,11 @@ func realCase(rng *rand.Rand) *realRun {
 	var opts []query.QueryOption
 	mode, delay := "silent", time.Duration(0)
 	var cancel chan struct{}
+	var pt time.Duration
 	switch kind {
 	case "idle":
-		opts = append(opts, query.ProgressTimeout(time.Duration(15+rng.Intn(25))*time.Millisecond))
+		pt = time.Duration(15+rng.Intn(25)) * time.Millisecond
+		opts = append(opts, query.ProgressTimeout(pt))
 		if rng.Intn(2) == 0 {
 			opts = append(opts, query.NoRetryMax())
 		}
@@ -232,6 +270,16 @@ func realCase(rng *rand.Rand) *realRun {
 		if W == 1 {
 			W = 2
 		}
+	case "prograce":
+		// the idle window (counted from submission) expires while the
+		// dispatcher is still handling the batch's first successful result;
+		// the batch has made progress, the following answers arrive well
+		// inside the new window
+		pt = time.Duration(40+rng.Intn(20)) * time.Millisecond
+		opts = append(opts, query.ProgressTimeout(pt))
+		mode, delay = "final", pt/2
+		W = 1
+		n1 = 2 + rng.Intn(2)
 	case "reconnect":
 		// persistent peers: they go away while idle and come back under the
 		// SAME address before the batch is handed in
@@ -290,6 +338,9 @@ func realCase(rng *rand.Rand) *realRun {
 	if n1 > W {
 		r.hit("real.jobs-left-queued")
 	}
+	if kind == "prograce" {
+		ranking.until.Store(time.Now().Add(pt + 6*time.Millisecond).UnixNano())
+	}
 	b1 := submit(n1, opts...)
 	if b1 == nil {
 		r.emit("rbatch 1 "+hdr, "v=HANG fin=0/0")
@@ -302,8 +353,9 @@ func realCase(rng *rand.Rand) *realRun {
 		}
 		close(cancel)
 	}
+	b1.pt = pt
 	v1 := b1.await(realDeadline)
-	r.emit("rbatch 1 "+hdr, fmt.Sprintf("v=%s fin=%d/%d", v1, b1.fin(), n1))
+	r.emit("rbatch 1 "+hdr, fmt.Sprintf("v=%s fin=%d/%d %s", v1, b1.fin(), n1, b1.gapObs()))
 	r.hit("real.first-verdict-" + v1)
 	batches := []*rbatch{b1}
 
